@@ -20,6 +20,7 @@ import H5.Model.Encoding
 import H5.Spec.Sniff
 import H5.Proofs.ExceptLemmas
 import H5.Proofs.PrescanFuel
+import H5.Proofs.PrescanSpec
 namespace H5.Props.C06
 open H5 H5.Gen H5.Model.Encoding
 
@@ -384,8 +385,10 @@ theorem C06_fallback_windows1252 (ms : Nat → Except PyErr (Option Str)) (data 
   simp [determineWith, hb, hm, hn, table_fixed.2.2.2.2, hfb]
 
 /-- a `<meta>` declaring UTF-16 found by the prescan means UTF-8: the prescan never reports UTF-16 -/
+theorem xud_label : lookupEncodingStr (some (lit "windows-1252")) = .ok (some w1252) := by decide +kernel
+
 theorem C06_meta_utf16_means_utf8 (data : Bytes) (pos : Nat) (e : Str)
-    (h : detectEncodingMeta data pos = .ok (some e)) : e ≠ utf16le ∧ e ≠ utf16be := by
+    (h : detectEncodingMeta data pos = .ok (some e)) : e ≠ utf16le ∧ e ≠ utf16be ∧ e ≠ lit "x-user-defined" := by
   unfold detectEncodingMeta at h
   split at h
   · simp at h
@@ -395,12 +398,18 @@ theorem C06_meta_utf16_means_utf8 (data : Bytes) (pos : Nat) (e : Str)
       rw [this] at h
       injection h with h; injection h with h
       subst h
-      exact ⟨by decide, by decide⟩
+      exact ⟨by decide, by decide, by decide⟩
     · rename_i hne
-      injection h with h; injection h with h
-      subst h
-      rw [lit_utf16be, lit_utf16le] at hne
-      exact ⟨fun x => hne (Or.inr x), fun x => hne (Or.inl x)⟩
+      split at h
+      · rw [xud_label] at h
+        injection h with h; injection h with h
+        subst h
+        exact ⟨by decide, by decide, by decide⟩
+      · rename_i hx
+        injection h with h; injection h with h
+        subst h
+        rw [lit_utf16be, lit_utf16le] at hne
+        exact ⟨fun x => hne (Or.inr x), fun x => hne (Or.inl x), hx⟩
   · simp at h
 
 /-! ### certain encodings and the late `<meta>` -/
@@ -428,31 +437,44 @@ theorem changeEncoding_tentative_none (cur : Str) (l : Label) (h : lookupEncodin
     changeEncoding cur .tentative l = .ok .unchanged := by
   simp [changeEncoding, h]
 
-/-- closed form of `changeEncoding` under a tentative encoding: a declared UTF-16 is taken as UTF-8, then the
-"same encoding / other encoding" test runs on the mapped value (`if`, not `elif`, since repair 10ad92e) -/
+def xud : Str := [120, 45, 117, 115, 101, 114, 45, 100, 101, 102, 105, 110, 101, 100]
+theorem lit_xud : lit "x-user-defined" = xud := by decide
+
+/-- the mapping applied to a declared encoding: UTF-16 means UTF-8, x-user-defined means windows-1252 -/
+def lateMap (e : Str) : Str := if e = utf16be ∨ e = utf16le then utf8 else if e = xud then w1252 else e
+
+/-- closed form of `changeEncoding` under a tentative encoding (after repairs COMMIT_late-x-user-defined and
+COMMIT_late-under-utf16): a document being read as UTF-16 keeps its encoding; otherwise the declared encoding is
+mapped and then compared with the current one -/
 theorem changeEncoding_tentative_some (cur : Str) (l : Label) (e : Str) (h : lookupEncodingAny l = .ok (some e)) :
     changeEncoding cur .tentative l =
-      .ok (if (if e = utf16be ∨ e = utf16le then utf8 else e) = cur then .nowCertain
-           else .reparse (if e = utf16be ∨ e = utf16le then utf8 else e)) := by
+      .ok (if cur = utf16be ∨ cur = utf16le then .nowCertain
+           else if lateMap e = cur then .nowCertain else .reparse (lateMap e)) := by
   have hu : lookupEncodingStr (some (lit "utf-8")) = .ok (some utf8) := by rw [lit_utf8]; exact bom_labels.1
-  simp only [changeEncoding, h, lit_utf16be, lit_utf16le, hu]
-  by_cases h1 : e = utf16be ∨ e = utf16le
-  · by_cases h2 : utf8 = cur
-    · simp [h1, h2]
-    · simp [h1, h2]
-  · by_cases h2 : e = cur
-    · subst h2; simp [h1]
-    · simp [h1, h2]
+  simp only [changeEncoding, h, lit_utf16be, lit_utf16le, lit_xud, hu, xud_label, lateMap]
+  by_cases hc : cur = utf16be ∨ cur = utf16le
+  · simp [hc]
+  · by_cases h1 : e = utf16be ∨ e = utf16le
+    · by_cases h2 : utf8 = cur
+      · simp [hc, h1, h2]
+      · simp [hc, h1, h2]
+    · by_cases hx : e = xud
+      · have hxn : ¬ (xud = utf16be ∨ xud = utf16le) := by decide
+        subst hx
+        by_cases h2 : w1252 = cur
+        · subst h2; simp [hxn, hc]
+        · simp [hxn, h2, hc]
+      · by_cases h2 : e = cur
+        · subst h2; simp [hc, h1, hx]
+        · simp [hc, h1, hx, h2]
 
-/-- **C06 (late meta), partial.**  A `<meta charset=label>` met by the tree builder while the encoding is tentative:
-html5lib agrees with the standard's "changing the encoding while parsing" — a declared UTF-16 means UTF-8, restart
-with the declared encoding, or just become certain when it is the current one, or ignore an unknown label (any
-label, also one with lone surrogates) — PROVIDED the label does not name x-user-defined and the current (tentative)
-encoding is not UTF-16.  Missing for the full statement: exactly these two cases (witnesses below, both still open). -/
-theorem C06_late_meta_partial (cur label : Str) (attrs : List (Str × Str))
-    (hc : attrGet attrs "charset" = some label)
-    (hxud : lookupLabel label ≠ some (lit "x-user-defined"))
-    (hcur : cur ≠ utf16le ∧ cur ≠ utf16be) :
+/-- **C06 (late meta).**  A `<meta charset=label>` met by the tree builder while the encoding is tentative: html5lib
+does exactly what the standard's "changing the encoding while parsing" says, for EVERY label and EVERY current
+encoding — unknown label: nothing; current encoding UTF-16: it stays, now certain; a declared UTF-16 means UTF-8,
+a declared x-user-defined means windows-1252; the current encoding: just certain; otherwise restart with the declared
+encoding.  (Full strength since the repairs COMMIT_late-x-user-defined and COMMIT_late-under-utf16; was `_partial`.) -/
+theorem C06_late_meta (cur label : Str) (attrs : List (Str × Str))
+    (hc : attrGet attrs "charset" = some label) :
     startTagMeta cur .tentative attrs = .ok (match Spec.Sniff.changeWhileParsing cur .tentative label with
       | .unchanged => .unchanged
       | .nowCertain => .nowCertain
@@ -461,8 +483,6 @@ theorem C06_late_meta_partial (cur label : Str) (attrs : List (Str × Str))
   have hl : lookupEncodingAny (.str label) = .ok (lookupLabel label) := by
     have := lookupStr_spec (some label)
     simp only [lookupEncodingAny, this, Spec.Sniff.label?, Option.bind_some, C06_lookup_spec]
-  have hcur16 : Spec.Sniff.isUtf16 cur = false := by
-    rw [isUtf16_eq]; simp [hcur.1, hcur.2]
   simp only [startTagMeta, harg]
   simp only [Spec.Sniff.changeWhileParsing, ← C06_lookup_spec]
   cases hn : lookupLabel label with
@@ -471,46 +491,54 @@ theorem C06_late_meta_partial (cur label : Str) (attrs : List (Str × Str))
     rw [changeEncoding_tentative_none cur _ hl]
     simp
   | some e =>
-    rw [hn] at hl hxud
+    rw [hn] at hl
     rw [changeEncoding_tentative_some cur _ e hl]
-    have n3 : e ≠ lit "x-user-defined" := fun h => hxud (by rw [h])
-    by_cases h16 : e = utf16be ∨ e = utf16le
-    · have he16 : Spec.Sniff.isUtf16 e = true := by
-        rw [isUtf16_eq]; rcases h16 with h | h <;> simp [h]
-      by_cases hec : utf8 = cur
-      · subst hec; simp [h16, he16, lit_utf8, hcur16]
-      · simp [h16, he16, lit_utf8, hcur16, hec]
-    · have he16 : Spec.Sniff.isUtf16 e = false := by
+    by_cases hcur : cur = utf16be ∨ cur = utf16le
+    · have : Spec.Sniff.isUtf16 cur = true := by rw [isUtf16_eq]; rcases hcur with h | h <;> simp [h]
+      simp [hcur, this]
+    · have hcur16 : Spec.Sniff.isUtf16 cur = false := by
         rw [isUtf16_eq]
-        have n1 : e ≠ utf16le := fun h => h16 (Or.inr h)
-        have n2 : e ≠ utf16be := fun h => h16 (Or.inl h)
+        have n1 : cur ≠ utf16le := fun h => hcur (Or.inr h)
+        have n2 : cur ≠ utf16be := fun h => hcur (Or.inl h)
         simp [n1, n2]
-      by_cases hec : e = cur
-      · subst hec; simp [he16, n3, h16]
-      · simp [hcur16, he16, n3, h16, hec]
+      simp only [hcur, if_false, hcur16, Bool.false_eq_true, lateMap]
+      by_cases h16 : e = utf16be ∨ e = utf16le
+      · have he16 : Spec.Sniff.isUtf16 e = true := by rw [isUtf16_eq]; rcases h16 with h | h <;> simp [h]
+        by_cases hec : utf8 = cur
+        · subst hec; simp [h16, he16, lit_utf8]
+        · simp [h16, he16, lit_utf8, hec]
+      · have he16 : Spec.Sniff.isUtf16 e = false := by
+          rw [isUtf16_eq]
+          have n1 : e ≠ utf16le := fun h => h16 (Or.inr h)
+          have n2 : e ≠ utf16be := fun h => h16 (Or.inl h)
+          simp [n1, n2]
+        by_cases hx : e = xud
+        · have hxn : ¬ (xud = utf16be ∨ xud = utf16le) := by decide
+          subst hx
+          by_cases hec : w1252 = cur
+          · subst hec; simp [hxn, he16, lit_xud, lit_w1252]
+          · simp [hxn, he16, lit_xud, lit_w1252, hec]
+        · by_cases hec : e = cur
+          · subst hec; simp [h16, he16, hx, lit_xud]
+          · simp [h16, he16, hx, lit_xud, hec]
 
-/-- regression example (witness of the repaired defect `late-meta:utf16-ignored`): a late `<meta charset=utf-16>`
-under a tentative windows-1252 now restarts the parse as UTF-8, as the standard says; under a tentative UTF-8 it only
-makes the encoding certain -/
-theorem C06_late_utf16_regression :
+/-- regression examples (witnesses of the repaired late-meta defects): a late `<meta charset=utf-16>` under a tentative
+windows-1252 restarts the parse as UTF-8; a late x-user-defined under windows-1252 only makes it certain; a document
+being read as UTF-16 keeps its encoding whatever the declaration says -/
+theorem C06_late_regression :
     startTagMeta w1252 .tentative [(lit "charset", lit "utf-16")] = .ok (.reparse utf8) ∧
-    Spec.Sniff.changeWhileParsing w1252 .tentative (lit "utf-16") = .restart utf8 ∧
     startTagMeta utf8 .tentative [(lit "charset", lit "UTF-16BE")] = .ok .nowCertain ∧
-    Spec.Sniff.changeWhileParsing utf8 .tentative (lit "UTF-16BE") = .nowCertain := by
+    startTagMeta w1252 .tentative [(lit "charset", lit "x-user-defined")] = .ok .nowCertain ∧
+    startTagMeta utf8 .tentative [(lit "charset", lit "x-user-defined")] = .ok (.reparse w1252) ∧
+    startTagMeta utf16le .tentative [(lit "charset", lit "koi8-r")] = .ok .nowCertain ∧
+    startTagMeta utf16le .tentative [(lit "charset", lit "utf-16be")] = .ok .nowCertain ∧
+    startTagMeta utf16le .tentative [(lit "charset", lit "bogus")] = .ok .unchanged := by
   decide +kernel
 
 /-- the same label in the first 1024 bytes is handled (prescan: UTF-16 → UTF-8) -/
 theorem C06_early_utf16_ok_witness :
     detectEncodingMeta [60, 109, 101, 116, 97, 32, 99, 104, 97, 114, 115, 101, 116, 61, 117, 116, 102, 45, 49, 54, 62] 0
       = .ok (some utf8) := by
-  decide +kernel
-
-/-- late x-user-defined is not mapped to windows-1252; a tentative UTF-16 document (likely_encoding) is re-parsed -/
-theorem C06_late_other_witnesses :
-    startTagMeta w1252 .tentative [(lit "charset", lit "x-user-defined")] = .ok (.reparse (lit "x-user-defined")) ∧
-    Spec.Sniff.changeWhileParsing w1252 .tentative (lit "x-user-defined") = .nowCertain ∧
-    startTagMeta utf16le .tentative [(lit "charset", lit "koi8-r")] = .ok (.reparse (lit "koi8-r")) ∧
-    Spec.Sniff.changeWhileParsing utf16le .tentative (lit "koi8-r") = .nowCertain := by
   decide +kernel
 
 /-! ### termination of the prescan -/
@@ -536,8 +564,38 @@ theorem C06_detectEncodingMeta_terminates (data : Bytes) (pos : Nat) (site : Str
   · split at h
     · have : lookupEncodingStr (some (lit "utf-8")) = .ok (some utf8) := by rw [lit_utf8]; exact bom_labels.1
       rw [this] at h; cases h
-    · cases h
+    · split at h
+      · rw [xud_label] at h; cases h
+      · cases h
   · cases h
+
+/-! ### prescan = the standard's prescan, per construct
+
+  After the ten repairs the harness finds no input on which `detectEncodingMeta` differs from `Spec.Sniff.prescan`
+  (class `prescan:*` / `prescan:not-covered…` would fire).  PROVED for every byte string are the two constructs that
+  carry the attribute grammar; the remaining constructs (ContentAttrParser = "extracting a character encoding from a
+  meta element", the `<meta>` attribute loop + decision, comment / `<!` / `</` / `<?` skipping, the main loop, and
+  the invariance of the standard's algorithm under the up-front lower-casing `EncodingBytes` does) are checked by the
+  correspondence + oracle only (`C06_regression_*` are their machine-checked examples). -/
+
+/-- **C06 (get an attribute).**  For every byte string `d` and every position, `EncodingParser.getAttribute` computes
+the standard's "get an attribute" on the bytes from that position: the same (lower-cased) name and value, stopping
+on the same byte — or on the whitespace byte just before it, which the next call skips; no attribute before `>`
+on both sides; running out of bytes is StopIteration / "None at the end of the data". -/
+theorem C06_getAttribute_spec (d : Bytes) (pos : Nat) :
+    H5.Proofs.PrescanSpec.GetRel d (getAttribute d pos) (Spec.Sniff.getAnAttribute {} (d.drop pos)) :=
+  H5.Proofs.PrescanSpec.getAttribute_spec d pos
+
+/-- **C06 (attributes of an ordinary tag).**  With the fuel the model uses (`len + 2`) and the fuel the reference uses
+(`len + 1`), the attribute loop of `handlePossibleTag` and the standard's "repeatedly get an attribute" end on the
+same `>` or both run out of bytes, from every position of every byte string. -/
+theorem C06_readAllAttributes_spec (d : Bytes) (pos : Nat) (hpos : pos ≤ d.length) :
+    match Spec.Sniff.skipAttrs {} ((d.drop pos).length + 1) (d.drop pos) with
+    | none => readAllAttributes d (d.length + 2) pos = .stop ∨ readAllAttributes d (d.length + 2) pos = .ok () (blen d)
+    | some r => ∃ p' : Nat, readAllAttributes d (d.length + 2) pos = .ok () p' ∧ d.drop p' = r ∧ r.head? = some 62 := by
+  have := H5.Proofs.PrescanSpec.readAllAttributes_spec d (d.length - pos) pos (d.length + 2) ((d.drop pos).length + 1)
+    (Nat.le_refl _) (by omega) (by omega) (by simp)
+  exact this
 
 /-! ### regression example for the repaired label lookup (BOM regressions: `C06_bom_regression`) -/
 
@@ -547,103 +605,99 @@ theorem C06_surrogate_label_regression :
     determineEncoding [] { override := some [0xD800], transport := some utf8 } = .ok ⟨utf8, .certain, 0⟩ := by
   decide +kernel
 
-/-! ### the ten documented deviations of the prescan from the standard: one witness each
-(model result on the bytes, the standard's result, and the standard with exactly that deviation switched on) -/
+/-! ### the ten repaired deviations of the prescan: one regression example each
+(on the former witness the library now gives the standard's result, and the reference with exactly that deviation
+switched on would differ — so the example really exercises the repaired construct) -/
 
 /-- `<meta charset=bogus charset=utf-8>` -/
-theorem C06_witness_noDedup :
+theorem C06_regression_noDedup :
     detectEncodingMeta [60, 109, 101, 116, 97, 32, 99, 104, 97, 114, 115, 101, 116, 61, 98, 111, 103, 117, 115, 32, 99, 104, 97, 114, 115, 101, 116, 61, 117, 116, 102, 45, 56, 62] 0
-      = .ok (Spec.Sniff.prescanWith { noDedup := true } [60, 109, 101, 116, 97, 32, 99, 104, 97, 114, 115, 101, 116, 61, 98, 111, 103, 117, 115, 32, 99, 104, 97, 114, 115, 101, 116, 61, 117, 116, 102, 45, 56, 62]) ∧
+      = .ok (Spec.Sniff.prescan [60, 109, 101, 116, 97, 32, 99, 104, 97, 114, 115, 101, 116, 61, 98, 111, 103, 117, 115, 32, 99, 104, 97, 114, 115, 101, 116, 61, 117, 116, 102, 45, 56, 62]) ∧
     Spec.Sniff.prescanWith { noDedup := true } [60, 109, 101, 116, 97, 32, 99, 104, 97, 114, 115, 101, 116, 61, 98, 111, 103, 117, 115, 32, 99, 104, 97, 114, 115, 101, 116, 61, 117, 116, 102, 45, 56, 62]
       ≠ Spec.Sniff.prescan [60, 109, 101, 116, 97, 32, 99, 104, 97, 114, 115, 101, 116, 61, 98, 111, 103, 117, 115, 32, 99, 104, 97, 114, 115, 101, 116, 61, 117, 116, 102, 45, 56, 62] := by
   decide +kernel
 
 /-- `<meta/charset=utf-8>` -/
-theorem C06_witness_metaNeedsSpace :
+theorem C06_regression_metaNeedsSpace :
     detectEncodingMeta [60, 109, 101, 116, 97, 47, 99, 104, 97, 114, 115, 101, 116, 61, 117, 116, 102, 45, 56, 62] 0
-      = .ok (Spec.Sniff.prescanWith { metaNeedsSpace := true } [60, 109, 101, 116, 97, 47, 99, 104, 97, 114, 115, 101, 116, 61, 117, 116, 102, 45, 56, 62]) ∧
+      = .ok (Spec.Sniff.prescan [60, 109, 101, 116, 97, 47, 99, 104, 97, 114, 115, 101, 116, 61, 117, 116, 102, 45, 56, 62]) ∧
     Spec.Sniff.prescanWith { metaNeedsSpace := true } [60, 109, 101, 116, 97, 47, 99, 104, 97, 114, 115, 101, 116, 61, 117, 116, 102, 45, 56, 62]
       ≠ Spec.Sniff.prescan [60, 109, 101, 116, 97, 47, 99, 104, 97, 114, 115, 101, 116, 61, 117, 116, 102, 45, 56, 62] := by
   decide +kernel
 
 /-- `<meta charset=x-user-defined>` -/
-theorem C06_witness_noUserDefinedMap :
+theorem C06_regression_noUserDefinedMap :
     detectEncodingMeta [60, 109, 101, 116, 97, 32, 99, 104, 97, 114, 115, 101, 116, 61, 120, 45, 117, 115, 101, 114, 45, 100, 101, 102, 105, 110, 101, 100, 62] 0
-      = .ok (Spec.Sniff.prescanWith { noUserDefinedMap := true } [60, 109, 101, 116, 97, 32, 99, 104, 97, 114, 115, 101, 116, 61, 120, 45, 117, 115, 101, 114, 45, 100, 101, 102, 105, 110, 101, 100, 62]) ∧
+      = .ok (Spec.Sniff.prescan [60, 109, 101, 116, 97, 32, 99, 104, 97, 114, 115, 101, 116, 61, 120, 45, 117, 115, 101, 114, 45, 100, 101, 102, 105, 110, 101, 100, 62]) ∧
     Spec.Sniff.prescanWith { noUserDefinedMap := true } [60, 109, 101, 116, 97, 32, 99, 104, 97, 114, 115, 101, 116, 61, 120, 45, 117, 115, 101, 114, 45, 100, 101, 102, 105, 110, 101, 100, 62]
       ≠ Spec.Sniff.prescan [60, 109, 101, 116, 97, 32, 99, 104, 97, 114, 115, 101, 116, 61, 120, 45, 117, 115, 101, 114, 45, 100, 101, 102, 105, 110, 101, 100, 62] := by
   decide +kernel
 
 /-- `<!--><meta charset=utf-8>` -/
-theorem C06_witness_commentNoOverlap :
+theorem C06_regression_commentNoOverlap :
     detectEncodingMeta [60, 33, 45, 45, 62, 60, 109, 101, 116, 97, 32, 99, 104, 97, 114, 115, 101, 116, 61, 117, 116, 102, 45, 56, 62] 0
-      = .ok (Spec.Sniff.prescanWith { commentNoOverlap := true } [60, 33, 45, 45, 62, 60, 109, 101, 116, 97, 32, 99, 104, 97, 114, 115, 101, 116, 61, 117, 116, 102, 45, 56, 62]) ∧
+      = .ok (Spec.Sniff.prescan [60, 33, 45, 45, 62, 60, 109, 101, 116, 97, 32, 99, 104, 97, 114, 115, 101, 116, 61, 117, 116, 102, 45, 56, 62]) ∧
     Spec.Sniff.prescanWith { commentNoOverlap := true } [60, 33, 45, 45, 62, 60, 109, 101, 116, 97, 32, 99, 104, 97, 114, 115, 101, 116, 61, 117, 116, 102, 45, 56, 62]
       ≠ Spec.Sniff.prescan [60, 33, 45, 45, 62, 60, 109, 101, 116, 97, 32, 99, 104, 97, 114, 115, 101, 116, 61, 117, 116, 102, 45, 56, 62] := by
   decide +kernel
 
 /-- `<<meta charset=utf-8>` -/
-theorem C06_witness_skipByteAfterLt :
+theorem C06_regression_skipByteAfterLt :
     detectEncodingMeta [60, 60, 109, 101, 116, 97, 32, 99, 104, 97, 114, 115, 101, 116, 61, 117, 116, 102, 45, 56, 62] 0
-      = .ok (Spec.Sniff.prescanWith { skipByteAfterLt := true } [60, 60, 109, 101, 116, 97, 32, 99, 104, 97, 114, 115, 101, 116, 61, 117, 116, 102, 45, 56, 62]) ∧
+      = .ok (Spec.Sniff.prescan [60, 60, 109, 101, 116, 97, 32, 99, 104, 97, 114, 115, 101, 116, 61, 117, 116, 102, 45, 56, 62]) ∧
     Spec.Sniff.prescanWith { skipByteAfterLt := true } [60, 60, 109, 101, 116, 97, 32, 99, 104, 97, 114, 115, 101, 116, 61, 117, 116, 102, 45, 56, 62]
       ≠ Spec.Sniff.prescan [60, 60, 109, 101, 116, 97, 32, 99, 104, 97, 114, 115, 101, 116, 61, 117, 116, 102, 45, 56, 62] := by
   decide +kernel
 
 /-- `<a<meta charset=utf-8>` -/
-theorem C06_witness_ltTerminates :
+theorem C06_regression_ltTerminates :
     detectEncodingMeta [60, 97, 60, 109, 101, 116, 97, 32, 99, 104, 97, 114, 115, 101, 116, 61, 117, 116, 102, 45, 56, 62] 0
-      = .ok (Spec.Sniff.prescanWith { ltTerminates := true } [60, 97, 60, 109, 101, 116, 97, 32, 99, 104, 97, 114, 115, 101, 116, 61, 117, 116, 102, 45, 56, 62]) ∧
+      = .ok (Spec.Sniff.prescan [60, 97, 60, 109, 101, 116, 97, 32, 99, 104, 97, 114, 115, 101, 116, 61, 117, 116, 102, 45, 56, 62]) ∧
     Spec.Sniff.prescanWith { ltTerminates := true } [60, 97, 60, 109, 101, 116, 97, 32, 99, 104, 97, 114, 115, 101, 116, 61, 117, 116, 102, 45, 56, 62]
       ≠ Spec.Sniff.prescan [60, 97, 60, 109, 101, 116, 97, 32, 99, 104, 97, 114, 115, 101, 116, 61, 117, 116, 102, 45, 56, 62] := by
   decide +kernel
 
 /-- `<meta charset=utf-8 ` -/
-theorem C06_witness_eagerMeta :
+theorem C06_regression_eagerMeta :
     detectEncodingMeta [60, 109, 101, 116, 97, 32, 99, 104, 97, 114, 115, 101, 116, 61, 117, 116, 102, 45, 56, 32] 0
-      = .ok (Spec.Sniff.prescanWith { eagerMeta := true } [60, 109, 101, 116, 97, 32, 99, 104, 97, 114, 115, 101, 116, 61, 117, 116, 102, 45, 56, 32]) ∧
+      = .ok (Spec.Sniff.prescan [60, 109, 101, 116, 97, 32, 99, 104, 97, 114, 115, 101, 116, 61, 117, 116, 102, 45, 56, 32]) ∧
     Spec.Sniff.prescanWith { eagerMeta := true } [60, 109, 101, 116, 97, 32, 99, 104, 97, 114, 115, 101, 116, 61, 117, 116, 102, 45, 56, 32]
       ≠ Spec.Sniff.prescan [60, 109, 101, 116, 97, 32, 99, 104, 97, 114, 115, 101, 116, 61, 117, 116, 102, 45, 56, 32] := by
   decide +kernel
 
 /-- `</a b='><meta charset=utf-8>'>` -/
-theorem C06_witness_endTagOffByOne :
+theorem C06_regression_endTagOffByOne :
     detectEncodingMeta [60, 47, 97, 32, 98, 61, 39, 62, 60, 109, 101, 116, 97, 32, 99, 104, 97, 114, 115, 101, 116, 61, 117, 116, 102, 45, 56, 62, 39, 62] 0
-      = .ok (Spec.Sniff.prescanWith { endTagOffByOne := true } [60, 47, 97, 32, 98, 61, 39, 62, 60, 109, 101, 116, 97, 32, 99, 104, 97, 114, 115, 101, 116, 61, 117, 116, 102, 45, 56, 62, 39, 62]) ∧
+      = .ok (Spec.Sniff.prescan [60, 47, 97, 32, 98, 61, 39, 62, 60, 109, 101, 116, 97, 32, 99, 104, 97, 114, 115, 101, 116, 61, 117, 116, 102, 45, 56, 62, 39, 62]) ∧
     Spec.Sniff.prescanWith { endTagOffByOne := true } [60, 47, 97, 32, 98, 61, 39, 62, 60, 109, 101, 116, 97, 32, 99, 104, 97, 114, 115, 101, 116, 61, 117, 116, 102, 45, 56, 62, 39, 62]
       ≠ Spec.Sniff.prescan [60, 47, 97, 32, 98, 61, 39, 62, 60, 109, 101, 116, 97, 32, 99, 104, 97, 114, 115, 101, 116, 61, 117, 116, 102, 45, 56, 62, 39, 62] := by
   decide +kernel
 
 /-- `<meta http-equiv=content-type content='charset charset=utf-8'>` -/
-theorem C06_witness_contentNoRetry :
+theorem C06_regression_contentNoRetry :
     detectEncodingMeta [60, 109, 101, 116, 97, 32, 104, 116, 116, 112, 45, 101, 113, 117, 105, 118, 61, 99, 111, 110, 116, 101, 110, 116, 45, 116, 121, 112, 101, 32, 99, 111, 110, 116, 101, 110, 116, 61, 39, 99, 104, 97, 114, 115, 101, 116, 32, 99, 104, 97, 114, 115, 101, 116, 61, 117, 116, 102, 45, 56, 39, 62] 0
-      = .ok (Spec.Sniff.prescanWith { contentNoRetry := true } [60, 109, 101, 116, 97, 32, 104, 116, 116, 112, 45, 101, 113, 117, 105, 118, 61, 99, 111, 110, 116, 101, 110, 116, 45, 116, 121, 112, 101, 32, 99, 111, 110, 116, 101, 110, 116, 61, 39, 99, 104, 97, 114, 115, 101, 116, 32, 99, 104, 97, 114, 115, 101, 116, 61, 117, 116, 102, 45, 56, 39, 62]) ∧
+      = .ok (Spec.Sniff.prescan [60, 109, 101, 116, 97, 32, 104, 116, 116, 112, 45, 101, 113, 117, 105, 118, 61, 99, 111, 110, 116, 101, 110, 116, 45, 116, 121, 112, 101, 32, 99, 111, 110, 116, 101, 110, 116, 61, 39, 99, 104, 97, 114, 115, 101, 116, 32, 99, 104, 97, 114, 115, 101, 116, 61, 117, 116, 102, 45, 56, 39, 62]) ∧
     Spec.Sniff.prescanWith { contentNoRetry := true } [60, 109, 101, 116, 97, 32, 104, 116, 116, 112, 45, 101, 113, 117, 105, 118, 61, 99, 111, 110, 116, 101, 110, 116, 45, 116, 121, 112, 101, 32, 99, 111, 110, 116, 101, 110, 116, 61, 39, 99, 104, 97, 114, 115, 101, 116, 32, 99, 104, 97, 114, 115, 101, 116, 61, 117, 116, 102, 45, 56, 39, 62]
       ≠ Spec.Sniff.prescan [60, 109, 101, 116, 97, 32, 104, 116, 116, 112, 45, 101, 113, 117, 105, 118, 61, 99, 111, 110, 116, 101, 110, 116, 45, 116, 121, 112, 101, 32, 99, 111, 110, 116, 101, 110, 116, 61, 39, 99, 104, 97, 114, 115, 101, 116, 32, 99, 104, 97, 114, 115, 101, 116, 61, 117, 116, 102, 45, 56, 39, 62] := by
   decide +kernel
 
 /-- `<meta http-equiv=content-type content=charset=utf-8;>` -/
-theorem C06_witness_contentNoSemicolon :
+theorem C06_regression_contentNoSemicolon :
     detectEncodingMeta [60, 109, 101, 116, 97, 32, 104, 116, 116, 112, 45, 101, 113, 117, 105, 118, 61, 99, 111, 110, 116, 101, 110, 116, 45, 116, 121, 112, 101, 32, 99, 111, 110, 116, 101, 110, 116, 61, 99, 104, 97, 114, 115, 101, 116, 61, 117, 116, 102, 45, 56, 59, 62] 0
-      = .ok (Spec.Sniff.prescanWith { contentNoSemicolon := true } [60, 109, 101, 116, 97, 32, 104, 116, 116, 112, 45, 101, 113, 117, 105, 118, 61, 99, 111, 110, 116, 101, 110, 116, 45, 116, 121, 112, 101, 32, 99, 111, 110, 116, 101, 110, 116, 61, 99, 104, 97, 114, 115, 101, 116, 61, 117, 116, 102, 45, 56, 59, 62]) ∧
+      = .ok (Spec.Sniff.prescan [60, 109, 101, 116, 97, 32, 104, 116, 116, 112, 45, 101, 113, 117, 105, 118, 61, 99, 111, 110, 116, 101, 110, 116, 45, 116, 121, 112, 101, 32, 99, 111, 110, 116, 101, 110, 116, 61, 99, 104, 97, 114, 115, 101, 116, 61, 117, 116, 102, 45, 56, 59, 62]) ∧
     Spec.Sniff.prescanWith { contentNoSemicolon := true } [60, 109, 101, 116, 97, 32, 104, 116, 116, 112, 45, 101, 113, 117, 105, 118, 61, 99, 111, 110, 116, 101, 110, 116, 45, 116, 121, 112, 101, 32, 99, 111, 110, 116, 101, 110, 116, 61, 99, 104, 97, 114, 115, 101, 116, 61, 117, 116, 102, 45, 56, 59, 62]
       ≠ Spec.Sniff.prescan [60, 109, 101, 116, 97, 32, 104, 116, 116, 112, 45, 101, 113, 117, 105, 118, 61, 99, 111, 110, 116, 101, 110, 116, 45, 116, 121, 112, 101, 32, 99, 111, 110, 116, 101, 110, 116, 61, 99, 104, 97, 114, 115, 101, 116, 61, 117, 116, 102, 45, 56, 59, 62] := by
   decide +kernel
 
-/-- with ALL deviations on, the parametrised reference reproduces the model on every witness above
-(on the exhaustive test domains this equality is checked by the harness: class
-`prescan:not-covered-by-documented-deviations`) -/
-theorem C06_witness_all_deviations :
-    detectEncodingMeta [60, 109, 101, 116, 97, 32, 99, 104, 97, 114, 115, 101, 116, 61, 98, 111, 103, 117, 115, 32, 99, 104, 97, 114, 115, 101, 116, 61, 117, 116, 102, 45, 56, 62] 0 = .ok (Spec.Sniff.prescanWith Spec.Sniff.html5libDev [60, 109, 101, 116, 97, 32, 99, 104, 97, 114, 115, 101, 116, 61, 98, 111, 103, 117, 115, 32, 99, 104, 97, 114, 115, 101, 116, 61, 117, 116, 102, 45, 56, 62]) ∧
-    detectEncodingMeta [60, 109, 101, 116, 97, 47, 99, 104, 97, 114, 115, 101, 116, 61, 117, 116, 102, 45, 56, 62] 0 = .ok (Spec.Sniff.prescanWith Spec.Sniff.html5libDev [60, 109, 101, 116, 97, 47, 99, 104, 97, 114, 115, 101, 116, 61, 117, 116, 102, 45, 56, 62]) ∧
-    detectEncodingMeta [60, 109, 101, 116, 97, 32, 99, 104, 97, 114, 115, 101, 116, 61, 120, 45, 117, 115, 101, 114, 45, 100, 101, 102, 105, 110, 101, 100, 62] 0 = .ok (Spec.Sniff.prescanWith Spec.Sniff.html5libDev [60, 109, 101, 116, 97, 32, 99, 104, 97, 114, 115, 101, 116, 61, 120, 45, 117, 115, 101, 114, 45, 100, 101, 102, 105, 110, 101, 100, 62]) ∧
-    detectEncodingMeta [60, 33, 45, 45, 62, 60, 109, 101, 116, 97, 32, 99, 104, 97, 114, 115, 101, 116, 61, 117, 116, 102, 45, 56, 62] 0 = .ok (Spec.Sniff.prescanWith Spec.Sniff.html5libDev [60, 33, 45, 45, 62, 60, 109, 101, 116, 97, 32, 99, 104, 97, 114, 115, 101, 116, 61, 117, 116, 102, 45, 56, 62]) ∧
-    detectEncodingMeta [60, 60, 109, 101, 116, 97, 32, 99, 104, 97, 114, 115, 101, 116, 61, 117, 116, 102, 45, 56, 62] 0 = .ok (Spec.Sniff.prescanWith Spec.Sniff.html5libDev [60, 60, 109, 101, 116, 97, 32, 99, 104, 97, 114, 115, 101, 116, 61, 117, 116, 102, 45, 56, 62]) ∧
-    detectEncodingMeta [60, 97, 60, 109, 101, 116, 97, 32, 99, 104, 97, 114, 115, 101, 116, 61, 117, 116, 102, 45, 56, 62] 0 = .ok (Spec.Sniff.prescanWith Spec.Sniff.html5libDev [60, 97, 60, 109, 101, 116, 97, 32, 99, 104, 97, 114, 115, 101, 116, 61, 117, 116, 102, 45, 56, 62]) ∧
+/-- further examples: the library configuration (`html5libDev = {}`) reproduces the model -/
+theorem C06_regression_more :
     detectEncodingMeta [60, 109, 101, 116, 97, 32, 99, 104, 97, 114, 115, 101, 116, 61, 117, 116, 102, 45, 56, 32] 0 = .ok (Spec.Sniff.prescanWith Spec.Sniff.html5libDev [60, 109, 101, 116, 97, 32, 99, 104, 97, 114, 115, 101, 116, 61, 117, 116, 102, 45, 56, 32]) ∧
-    detectEncodingMeta [60, 47, 97, 32, 98, 61, 39, 62, 60, 109, 101, 116, 97, 32, 99, 104, 97, 114, 115, 101, 116, 61, 117, 116, 102, 45, 56, 62, 39, 62] 0 = .ok (Spec.Sniff.prescanWith Spec.Sniff.html5libDev [60, 47, 97, 32, 98, 61, 39, 62, 60, 109, 101, 116, 97, 32, 99, 104, 97, 114, 115, 101, 116, 61, 117, 116, 102, 45, 56, 62, 39, 62]) ∧
-    detectEncodingMeta [60, 109, 101, 116, 97, 32, 104, 116, 116, 112, 45, 101, 113, 117, 105, 118, 61, 99, 111, 110, 116, 101, 110, 116, 45, 116, 121, 112, 101, 32, 99, 111, 110, 116, 101, 110, 116, 61, 39, 99, 104, 97, 114, 115, 101, 116, 32, 99, 104, 97, 114, 115, 101, 116, 61, 117, 116, 102, 45, 56, 39, 62] 0 = .ok (Spec.Sniff.prescanWith Spec.Sniff.html5libDev [60, 109, 101, 116, 97, 32, 104, 116, 116, 112, 45, 101, 113, 117, 105, 118, 61, 99, 111, 110, 116, 101, 110, 116, 45, 116, 121, 112, 101, 32, 99, 111, 110, 116, 101, 110, 116, 61, 39, 99, 104, 97, 114, 115, 101, 116, 32, 99, 104, 97, 114, 115, 101, 116, 61, 117, 116, 102, 45, 56, 39, 62]) ∧
-    detectEncodingMeta [60, 109, 101, 116, 97, 32, 104, 116, 116, 112, 45, 101, 113, 117, 105, 118, 61, 99, 111, 110, 116, 101, 110, 116, 45, 116, 121, 112, 101, 32, 99, 111, 110, 116, 101, 110, 116, 61, 99, 104, 97, 114, 115, 101, 116, 61, 117, 116, 102, 45, 56, 59, 62] 0 = .ok (Spec.Sniff.prescanWith Spec.Sniff.html5libDev [60, 109, 101, 116, 97, 32, 104, 116, 116, 112, 45, 101, 113, 117, 105, 118, 61, 99, 111, 110, 116, 101, 110, 116, 45, 116, 121, 112, 101, 32, 99, 111, 110, 116, 101, 110, 116, 61, 99, 104, 97, 114, 115, 101, 116, 61, 117, 116, 102, 45, 56, 59, 62]) := by
+    detectEncodingMeta [60, 109, 101, 116, 97, 32, 99, 111, 110, 116, 101, 110, 116, 61, 39, 99, 104, 97, 114, 115, 101, 116, 61, 107, 111, 105, 56, 45, 114, 39, 32, 99, 104, 97, 114, 115, 101, 116, 61, 98, 105, 103, 53, 32, 104, 116, 116, 112, 45, 101, 113, 117, 105, 118, 61, 99, 111, 110, 116, 101, 110, 116, 45, 116, 121, 112, 101, 62] 0 = .ok (Spec.Sniff.prescanWith Spec.Sniff.html5libDev [60, 109, 101, 116, 97, 32, 99, 111, 110, 116, 101, 110, 116, 61, 39, 99, 104, 97, 114, 115, 101, 116, 61, 107, 111, 105, 56, 45, 114, 39, 32, 99, 104, 97, 114, 115, 101, 116, 61, 98, 105, 103, 53, 32, 104, 116, 116, 112, 45, 101, 113, 117, 105, 118, 61, 99, 111, 110, 116, 101, 110, 116, 45, 116, 121, 112, 101, 62]) ∧
+    detectEncodingMeta [60, 109, 101, 116, 97, 120, 32, 97, 61, 39, 60, 109, 101, 116, 97, 32, 99, 104, 97, 114, 115, 101, 116, 61, 117, 116, 102, 45, 56, 62, 39, 62] 0 = .ok (Spec.Sniff.prescanWith Spec.Sniff.html5libDev [60, 109, 101, 116, 97, 120, 32, 97, 61, 39, 60, 109, 101, 116, 97, 32, 99, 104, 97, 114, 115, 101, 116, 61, 117, 116, 102, 45, 56, 62, 39, 62]) ∧
+    detectEncodingMeta [60, 109, 101, 116, 97, 32, 104, 116, 116, 112, 45, 101, 113, 117, 105, 118, 61, 99, 111, 110, 116, 101, 110, 116, 45, 116, 121, 112, 101, 32, 99, 111, 110, 116, 101, 110, 116, 61, 39, 116, 101, 120, 116, 47, 104, 116, 109, 108, 59, 32, 99, 104, 97, 114, 115, 101, 116, 61, 107, 111, 105, 56, 45, 114, 59, 120, 39, 32, 62] 0 = .ok (Spec.Sniff.prescanWith Spec.Sniff.html5libDev [60, 109, 101, 116, 97, 32, 104, 116, 116, 112, 45, 101, 113, 117, 105, 118, 61, 99, 111, 110, 116, 101, 110, 116, 45, 116, 121, 112, 101, 32, 99, 111, 110, 116, 101, 110, 116, 61, 39, 116, 101, 120, 116, 47, 104, 116, 109, 108, 59, 32, 99, 104, 97, 114, 115, 101, 116, 61, 107, 111, 105, 56, 45, 114, 59, 120, 39, 32, 62]) ∧
+    detectEncodingMeta [60, 77, 69, 84, 65, 32, 72, 84, 84, 80, 45, 69, 81, 85, 73, 86, 61, 39, 67, 111, 110, 116, 101, 110, 116, 45, 84, 121, 112, 101, 39, 32, 67, 79, 78, 84, 69, 78, 84, 61, 39, 116, 101, 120, 116, 47, 104, 116, 109, 108, 59, 32, 67, 72, 65, 82, 83, 69, 84, 61, 66, 105, 103, 53, 39, 62] 0 = .ok (Spec.Sniff.prescanWith Spec.Sniff.html5libDev [60, 77, 69, 84, 65, 32, 72, 84, 84, 80, 45, 69, 81, 85, 73, 86, 61, 39, 67, 111, 110, 116, 101, 110, 116, 45, 84, 121, 112, 101, 39, 32, 67, 79, 78, 84, 69, 78, 84, 61, 39, 116, 101, 120, 116, 47, 104, 116, 109, 108, 59, 32, 67, 72, 65, 82, 83, 69, 84, 61, 66, 105, 103, 53, 39, 62]) ∧
+    detectEncodingMeta [60, 33, 45, 45, 32, 60, 109, 101, 116, 97, 32, 99, 104, 97, 114, 115, 101, 116, 61, 117, 116, 102, 45, 56, 62, 32, 45, 45, 62, 60, 109, 101, 116, 97, 32, 99, 104, 97, 114, 115, 101, 116, 61, 107, 111, 105, 56, 45, 114, 62] 0 = .ok (Spec.Sniff.prescanWith Spec.Sniff.html5libDev [60, 33, 45, 45, 32, 60, 109, 101, 116, 97, 32, 99, 104, 97, 114, 115, 101, 116, 61, 117, 116, 102, 45, 56, 62, 32, 45, 45, 62, 60, 109, 101, 116, 97, 32, 99, 104, 97, 114, 115, 101, 116, 61, 107, 111, 105, 56, 45, 114, 62]) ∧
+    detectEncodingMeta [60, 109, 101, 116, 97, 32, 99, 104, 97, 114, 115, 101, 116, 61, 117, 116, 102, 45, 49, 54, 98, 101, 62] 0 = .ok (Spec.Sniff.prescanWith Spec.Sniff.html5libDev [60, 109, 101, 116, 97, 32, 99, 104, 97, 114, 115, 101, 116, 61, 117, 116, 102, 45, 49, 54, 98, 101, 62]) := by
   decide +kernel
 
 end H5.Props.C06
